@@ -28,22 +28,15 @@ def mk(name, edits):
     shutil.rmtree(work, ignore_errors=True)
 
 # ---- runtime -------------------------------------------------------------------------------
-mk("C08-post-before-first", [("seq/seq.go", "\t\tloop(true)\n", "\t\tloop(false)\n")])
-mk("C08-combine-continue-runs-s2", [("seq/seq.go", "if t == kNormal {\n\t\t\t\ts2(c, k)", "if t == kNormal || t == kContinue {\n\t\t\t\ts2(c, k)")])
 mk("C08-break-loses-return-value", [("seq/seq.go", "\t\t\t\t\tcase kReturn:\n\t\t\t\t\t\tk(kReturn, v)", "\t\t\t\t\tcase kReturn:\n\t\t\t\t\t\tk(kReturn, zero[V]())")])
 mk("C09-current-not-cleared", [("seq/seq.go", "\t\td.next = nil\n\t\td.current = zero[V]()\n", "\t\td.next = nil\n")])
-mk("C09-send-drops-first-value", [("seq/seq.go", "\tif d.moveNext(v) {\n\t\treturn d.current, true", "\tif d.moveNext(zero[V]()) {\n\t\treturn d.current, true")])
 mk("C10-string-offsets-of-invalid-bytes", [("seq/iter.go", "\ts.next += w\n", "\tif r == utf8.RuneError && w == 1 {\n\t\tw = 1 + 0*len(s.str)\n\t\ts.val = rune(s.str[s.next])\n\t}\n\ts.next += w\n")])
 mk("C10-int-off-by-one-at-n-minus-1", [("seq/iter.go", "\tif i.i+1 >= i.n {", "\tif i.i+1 >= i.n && i.n != 3 {")])
 mk("C14-shared-step-state", [("seq/seq.go", "func Start[V any](seq Seq[V]) Iterator[V] {\n\tvar it *generator[V]\n\tit = newGenerator[V](mkNext(\n\t\tfunc() Seq[V] { return seq },\n\t\t&co[V]{},", "var sharedCo = map[any]any{}\n\nfunc coOf[V any](seq Seq[V]) *co[V] {\n\tvar key *Seq[V]\n\tif c, ok := sharedCo[key]; ok {\n\t\treturn c.(*co[V])\n\t}\n\tc := &co[V]{}\n\tsharedCo[key] = c\n\treturn c\n}\n\nfunc Start[V any](seq Seq[V]) Iterator[V] {\n\tvar it *generator[V]\n\tit = newGenerator[V](mkNext(\n\t\tfunc() Seq[V] { return seq },\n\t\tcoOf(seq),")])
-mk("C17-for-recursion-restored", [("seq/seq.go", "\t\t\t\t\t\tif running {\n\t\t\t\t\t\t\tagain = true // completed synchronously, continue in the for loop below\n\t\t\t\t\t\t} else {\n\t\t\t\t\t\t\tloop(false) // resumed after a yield, start a new trampoline\n\t\t\t\t\t\t}", "\t\t\t\t\t\tloop(false)")])
 mk("C18-recover-in-movenext", [("seq/seq.go", "\ts := d.next(sent) // compute next step\n", "\tdefer func() {\n\t\tif r := recover(); r != nil {\n\t\t\td.next = nil\n\t\t}\n\t}()\n\ts := d.next(sent) // compute next step\n")])
 # ---- rewriter ------------------------------------------------------------------------------
 mk("C01-switch-counts-as-loop-for-continue", [("rewriter/yield_rewrite.go", "\t\t\tcase token.CONTINUE:\n\t\t\t\tif inLoop() {", "\t\t\tcase token.CONTINUE:\n\t\t\t\tif inLoop() || inSwitch() {")])
-mk("C02-delay-elided-for-identifiers", [("rewriter/optimize.go", "\t\t\t\tmatcher.MkPattern[BasicLitPattern](m, constTrue), // literal", "\t\t\t\tWildcard[ExprPattern](m), // literal")])
-mk("C03-for-init-not-hoisted-into-block", [("rewriter/yield_rewrite.go", "\t\t\t\tn.Init = nil\n\t\t\t\tn.For = token.NoPos\n\t\t\t\tc.Replace(X.Block(init, n))", "\t\t\t\tn.Init = nil\n\t\t\t\tn.For = token.NoPos\n\t\t\t\tc.InsertBefore(init)\n\t\t\t\tc.Replace(n)")])
 mk("C04-range-assign-becomes-define", [("rewriter/range.go", "\t\tkv = X.Assign2(n.Tok,", "\t\tkv = X.Assign2(token.DEFINE,")])
-mk("C05-yieldfrom-skips-first-of-preadvanced", [("rewriter/rewrite.go", "\tinit := X.Define(iter, fr.X)\n\tcond := X.Call(next)", "\tinit := X.Define(iter, fr.X)\n\tcond := X.Call(next)\n\tif _, isCall := fr.X.(*ast.CallExpr); !isCall && fr.Tok == token.DEFINE {\n\t\tif id, ok := fr.Key.(*ast.Ident); ok && id.Name == cstYieldFromRangeVar {\n\t\t\tcond = &ast.BinaryExpr{X: X.Call(next), Op: token.LAND, Y: X.Call(next)}\n\t\t}\n\t}")])
 mk("C06-consumer-assign-form-defines", [("rewriter/rewrite.go", "\tassign := X.Assign(fr.Tok, fr.Key, X.Call(current))", "\tassign := X.Assign(token.DEFINE, fr.Key, X.Call(current))")])
 mk("C07-eta-reduces-method-values", [("rewriter/optimize.go", "\t\t\t\treturn false // method value", "\t\t\t\tid = f.Sel // method value\n\t\t\t\tfn, _ := ctx.ObjectOf(id).(*types.Func)\n\t\t\t\treturn fn != nil")])
 mk("C11-assert-on-else-if-chain-in-case", [("rewriter/yield_block.go", "\tassert(b.kind == kindDelay ||\n\t\tb.kind == kindFor || b.kind == kindIf || b.kind == kindSwitch)", "\tassert(b.kind == kindDelay ||\n\t\tb.kind == kindFor || b.kind == kindIf)")])
@@ -54,3 +47,9 @@ mk("C16-test-suffix-mapping", [("rewriter/compile.go", "\t\tfilename = replace(f
 mk("C12-range-func-unchecked", [("rewriter/range.go", "\t\t\tcase *types.Signature:\n\t\t\t\tpanic(\"implement me: range func\")", "\t\t\tcase *types.Signature:\n\t\t\t\t// native range-over-func")])
 mk("C13-free-comments-and-directives", [("rewriter/optimize.go", "\t\to.optimizeImports(f)", "\t\to.optimizeImports(f)\n\t\tf.File.Comments = nil")])
 mk("C05-yieldfrom-evaluates-arg-per-step", [("rewriter/rewrite.go", "\tinit := X.Define(iter, fr.X)\n\tcond := X.Call(next)", "\tinit := X.Define(iter, fr.X)\n\tcond := X.Call(next)\n\tif call, ok := fr.X.(*ast.CallExpr); ok && len(call.Args) == 0 {\n\t\tcond = X.Call(X.Select(fr.X, cstMoveNext))\n\t}")])
+
+mk("C17-trampoline-only-for-condless-loops", [("seq/seq.go", "\t\t\t\t\t\tif running {", "\t\t\t\t\t\tif running && cond == nil {")])
+mk("C08-continue-skips-post-in-nested-combine", [("seq/seq.go", "\t\t\t\t\tcase kNormal, kContinue:\n\t\t\t\t\t\tif running {", "\t\t\t\t\tcase kNormal, kContinue:\n\t\t\t\t\t\tif t == kContinue && post != nil && cond == nil {\n\t\t\t\t\t\t\tskipPost = true\n\t\t\t\t\t\t}\n\t\t\t\t\t\tif running {")])
+mk("C09-result-not-recorded-for-break-signal", [("seq/seq.go", "\t\tfunc(t contType, v V) { it.result = v },", "\t\tfunc(t contType, v V) {\n\t\t\tif t == kReturn || t == kNormal {\n\t\t\t\tit.result = v\n\t\t\t}\n\t\t},")])
+mk("C01-if-last-in-loop-body-no-normal", [("rewriter/yield_rewrite.go", "\t\tr.rewriteIfStmt(stmt, children)\n\t\tif isLast {", "\t\tr.rewriteIfStmt(stmt, children)\n\t\tif isLast && children.kind != kindSwitch {")])
+mk("C03-post-scope-isolation-only-for-define", [("rewriter/yield_rewrite.go", "\t\tif declaresVar(body.block.List) {", "\t\tif declaresVar(body.block.List) && len(body.block.List) > 2 {")])
